@@ -134,17 +134,84 @@ def structured_pair(rng):
     return kind, A, B
 
 
+def _seg_hits(p, q, a, b):
+    """exact: does the closed segment pq meet the closed segment ab (integer coordinates)"""
+    def orient(u, v, w):
+        d = (v[0] - u[0]) * (w[1] - u[1]) - (v[1] - u[1]) * (w[0] - u[0])
+        return (d > 0) - (d < 0)
+    def onseg(u, v, w):
+        return min(u[0], v[0]) <= w[0] <= max(u[0], v[0]) and min(u[1], v[1]) <= w[1] <= max(u[1], v[1])
+    o1, o2, o3, o4 = orient(p, q, a), orient(p, q, b), orient(a, b, p), orient(a, b, q)
+    if o1 != o2 and o3 != o4:
+        return True
+    return (o1 == 0 and onseg(p, q, a)) or (o2 == 0 and onseg(p, q, b)) or (o3 == 0 and onseg(a, b, p)) or (o4 == 0 and onseg(a, b, q))
+
+
+def rect_edge_crosser(rng, ring):
+    """a line or thin triangle whose only contact with the rectangle boundary is ONE chosen edge, strictly between its end
+    points, coming from outside a corner region (so the envelopes straddle a corner and no short-cut by envelope or by
+    corner containment decides): aimed at per-edge loops of the rectangle fast paths (first / last / closing edge)."""
+    xs = [p[0] for p in ring]; ys = [p[1] for p in ring]
+    x0, x1, y0, y1 = min(xs), max(xs), min(ys), max(ys)
+    if x1 - x0 < 2 or y1 - y0 < 2:
+        return None
+    edges = [(ring[i], ring[i + 1]) for i in range(4)]
+    k = rng.randrange(4)
+    a, b = edges[k]
+    for _ in range(200):
+        pin = (rng.randint(x0 + 1, x1 - 1), rng.randint(y0 + 1, y1 - 1)) if rng.random() < 0.7 else None
+        span = max(x1 - x0, y1 - y0)
+        if a[0] == b[0]:      # vertical edge at x = a[0]; outside is to the left (x0) or right (x1)
+            sgn = -1 if a[0] == x0 else 1
+            pout = (a[0] + sgn * rng.randint(1, span), rng.choice([y0 - rng.randint(1, span), y1 + rng.randint(1, span), rng.randint(y0, y1)]))
+        else:
+            sgn = -1 if a[1] == y0 else 1
+            pout = (rng.choice([x0 - rng.randint(1, span), x1 + rng.randint(1, span), rng.randint(x0, x1)]), a[1] + sgn * rng.randint(1, span))
+        if pin is None:       # touch only: end exactly on the edge, strictly inside it
+            if a[0] == b[0]:
+                if abs(a[1] - b[1]) < 2: continue
+                pin = (a[0], rng.randint(min(a[1], b[1]) + 1, max(a[1], b[1]) - 1))
+            else:
+                if abs(a[0] - b[0]) < 2: continue
+                pin = (rng.randint(min(a[0], b[0]) + 1, max(a[0], b[0]) - 1), a[1])
+        if any(_seg_hits(pin, pout, e[0], e[1]) for j, e in enumerate(edges) if j != k):
+            continue
+        if not _seg_hits(pin, pout, a, b):
+            continue
+        if rng.random() < 0.5:
+            return ('LineString', [pout, pin])
+        # thin triangle: second outside vertex next to the first, on the same side of the edge's line
+        d = (0, rng.choice([-1, 1])) if a[0] == b[0] else (rng.choice([-1, 1]), 0)
+        pout2 = (pout[0] + d[0], pout[1] + d[1])
+        if any(_seg_hits(pin, pout2, e[0], e[1]) for j, e in enumerate(edges) if j != k) or pout2 == pin:
+            continue
+        tri = [pout, pout2, pin, pout]
+        area2 = (pout2[0] - pout[0]) * (pin[1] - pout[1]) - (pout2[1] - pout[1]) * (pin[0] - pout[0])
+        if area2 == 0:
+            continue
+        return ('Polygon', [tri])
+    return None
+
+
 def rect_pairs(rng):
     """axis-parallel rectangle vs the same polygon with one redundant collinear vertex: every answer must coincide"""
     x0, y0 = rng.randint(-50, 50), rng.randint(-50, 50)
     w, h = rng.randint(1, 30), rng.randint(1, 30)
     f = G.to_full_precision(rng, None) if rng.random() < 0.5 else (lambda p: p)
     ring = G.rect_ring(x0, y0, x0 + w, y0 + h)
-    mid = (x0 + w / 2 if w % 2 else x0 + w // 2, y0)
+    # any corner may start the ring and either orientation: which edge is first / last / closing varies
+    k = rng.randrange(4)
+    ring = ring[k:4] + ring[:k]; ring.append(ring[0])
+    if rng.random() < 0.5:
+        ring = ring[::-1]
+    a, b = ring[0], ring[1]
+    mid = ((a[0] + b[0]) / 2 if (a[0] + b[0]) % 2 else (a[0] + b[0]) // 2, (a[1] + b[1]) / 2 if (a[1] + b[1]) % 2 else (a[1] + b[1]) // 2)
     ring2 = [ring[0], mid] + ring[1:]
+    other = rect_edge_crosser(rng, ring) if rng.random() < 0.45 else None
+    if other is None:
+        other = G.derive(rng, ('Polygon', [ring]), max(w, h)) if rng.random() < 0.7 else G.gen_geom(rng, 40)
     R1 = G.map_coords(('Polygon', [ring]), f); R2 = G.map_coords(('Polygon', [ring2]), f)
-    other = G.map_coords(G.derive(rng, ('Polygon', [ring]), max(w, h)) if rng.random() < 0.7 else G.gen_geom(rng, 40), f)
-    return R1, R2, other
+    return R1, R2, G.map_coords(other, f)
 
 
 def parse_out(o):
